@@ -265,6 +265,10 @@ package proto
 //@ spec func afterLine(p int) int = (S_cr(p) + 2 <= S_end ? S_cr(p) + 2 : S_end)
 //@ spec func lineStr(p int) string = arrstr(S_in, p, lineEnd(p) - p)
 
+//@ func NewParserWithReader
+//@ assigns nothing
+//@ ensures result != nil && fresh(result) && result.reader == msgReader
+
 //@ func (*Parser).nextLengthBytes
 //@ requires parser.reader != nil
 //@ requires 0 <= S_pos && S_pos <= S_end && S_end <= 17592186044416
